@@ -275,3 +275,43 @@ Proof.
   destruct (texts_eqb ps ps') eqn:E; [|apply andb_false_r].
   apply text_eqb_eq in Ej. rewrite <- Ej, Nj, text_eqb_refl. reflexivity.
 Qed.
+
+(* against strings of any lengths: outside the known class (the strings differ but their joins
+   coincide) the verdict is still "invalid exactly when a string differs" *)
+Theorem refs_detect_guarded H s a ps ps' :
+  refs_from H s a ps -> some_text ps = true ->
+  (let d := odflt (ann_vstr s a KDEL) in H (text_join d ps) = H (text_join d ps') -> text_join d ps = text_join d ps') ->
+  regrouped (odflt (ann_vstr s a KDEL)) ps ps' = false ->
+  by_reference H s a ps' = Some (texts_eqb ps ps').
+Proof.
+  intros (Hc & Hk & Ht) Hs Hinj Hr. cbv zeta in Hinj. unfold by_reference. unfold carries_info in Hc.
+  unfold regrouped in Hr.
+  set (d := odflt (ann_vstr s a KDEL)) in *.
+  set (j := text_join d ps) in *. set (j' := text_join d ps') in *.
+  assert (Nj : is_nil j = false) by (unfold j; rewrite join_nil, Hs; reflexivity).
+  assert (Ej : text_eqb j j' = texts_eqb ps ps').
+  { destruct (texts_eqb ps ps') eqn:E.
+    - apply texts_eqb_eq in E. unfold j, j'. rewrite E. apply text_eqb_refl.
+    - cbn [negb andb] in Hr. exact Hr. }
+  assert (Eh : negb (is_nil j') && text_eqb (H j) (H j') = texts_eqb ps ps').
+  { rewrite <- Ej. destruct (text_eqb j j') eqn:E.
+    - apply text_eqb_eq in E. rewrite <- E, Nj, text_eqb_refl. reflexivity.
+    - destruct (text_eqb (H j) (H j')) eqn:E2; [|apply andb_false_r].
+      apply text_eqb_eq in E2. apply Hinj in E2. apply text_eqb_eq in E2. congruence. }
+  destruct (ann_vstr s a KCHK) as [c|]; destruct (ann_vstr s a KTXT) as [t|]; cbn in Hc; try discriminate.
+  - rewrite (Hk c eq_refl), (Ht t eq_refl), Eh, Ej. destruct (texts_eqb ps ps'); reflexivity.
+  - rewrite (Hk c eq_refl), Eh. reflexivity.
+  - rewrite (Ht t eq_refl), Ej. reflexivity.
+Qed.
+
+(* inside the class the verdict is "valid" although a string differs *)
+Theorem refs_regrouped_refuted H s a ps ps' :
+  refs_from H s a ps -> some_text ps = true ->
+  regrouped (odflt (ann_vstr s a KDEL)) ps ps' = true ->
+  by_reference H s a ps' = Some true /\ ps <> ps'.
+Proof.
+  intros R Hs Hr. unfold regrouped in Hr. apply andb_prop in Hr. destruct Hr as [H1 H2].
+  split.
+  - apply text_eqb_eq in H2. pose proof (refs_valid H s a ps R Hs) as V. unfold by_reference in *. rewrite <- H2. exact V.
+  - intros C. apply texts_eqb_eq in C. rewrite C in H1. discriminate.
+Qed.
